@@ -2082,6 +2082,9 @@ class Symex:
         if short == "partial" and name in ("partial", "functools.partial") and args:
             f0, a0, k0 = args[0], list(args[1:]), dict(kw)
             return lambda sx, a, k: sx.call_value(f0, a0 + list(a), {**k0, **k}, node)
+        if short == "methodcaller" and name in ("methodcaller", "operator.methodcaller") and args and isinstance(args[0], str):
+            mname, margs, mkw = args[0], list(args[1:]), dict(kw)
+            return lambda sx, a, k: sx.call_method(a[0], mname, list(margs), dict(mkw), node)
         if short == "itemgetter" and name in ("itemgetter", "operator.itemgetter") and args:
             keys = list(args)
 
